@@ -65,7 +65,7 @@ with exprs := ENil | ECons (e : expr) (es : exprs)
 with kwds := KNil | KCons (name : option string) (e : expr) (k : kwds)
 with cmps := CNil | CCons (op : cop) (e : expr) (c : cmps)
 with parts := PNil | PLit (s : string) (p : parts) | PFmt (e : expr) (cv : conv) (p : parts)
-with dpairs := DNil | DCons (k v : expr) (d : dpairs)
+with dpairs := DNil | DCons (k v : expr) (d : dpairs) | DStar (e : expr) (d : dpairs)   (* [**e] *)
 with gens := GNil | GCons (targets : list string) (tuple_target : bool) (iter : expr) (ifs : exprs) (g : gens).
 
 (** ** Node numbering: a node is identified by its position in the pre-order listing of the
@@ -87,7 +87,8 @@ with size_l (es : exprs) : nat := match es with ENil => 0 | ECons e r => size e 
 with size_k (ks : kwds) : nat := match ks with KNil => 0 | KCons _ e r => size e + size_k r end
 with size_c (cs : cmps) : nat := match cs with CNil => 0 | CCons _ e r => size e + size_c r end
 with size_p (ps : parts) : nat := match ps with PNil => 0 | PLit _ r => size_p r | PFmt e _ r => size e + size_p r end
-with size_d (ds : dpairs) : nat := match ds with DNil => 0 | DCons k v r => size k + size v + size_d r end
+with size_d (ds : dpairs) : nat :=
+  match ds with DNil => 0 | DCons k v r => size k + size v + size_d r | DStar e r => size e + size_d r end
 with size_g (gs : gens) : nat :=
   match gs with GNil => 0 | GCons _ _ it ifs r => size it + size_l ifs + size_g r end.
 
@@ -104,6 +105,8 @@ Record prims := {
   p_format : conv -> val -> res string;
   p_mkdict : list (val * val) -> res val;
   p_kwunpack : val -> res (list (string * val));
+  p_items : val -> res (list (val * val));
+  p_same_key : val -> val -> bool;               (* two keys address the same dictionary entry *)       (* the items of a mapping, for [**m] in a dict display *)
   p_callable : val -> bool;
   p_is_all : val -> bool;                 (* [func == builtins.all] *)
   p_builtin : string -> option val        (* [getattr(builtins, name)] *)
@@ -326,6 +329,8 @@ with ev_dpairs (i : nat) (ds : dpairs) {struct ds} : M (list (val * val)) :=
   | DNil => ret []
   | DCons k v r =>
       kx <- ev i k ;; vx <- ev (i + size k) v ;; rest <- ev_dpairs (i + size k + size v) r ;; ret ((kx, vx) :: rest)
+  | DStar e1 r =>
+      mv <- ev i e1 ;; kv <- lift (p_items P mv) ;; rest <- ev_dpairs (i + size e1) r ;; ret (kv ++ rest)
   end
 with ev_gens (gs : gens) (m_iter m : env) {struct gs} : list (env + err) :=
   (* [m_iter]: where the iterable of the first clause is evaluated (the enclosing scope for the
@@ -405,6 +410,28 @@ Definition mark_targets (gs : gens) : R unit :=
   put_env (fold_left (fun a n => set_var a n (None : rval)) (stored_names gs []) m).
 
 Definition ph {A} : R (option A) := ret None.
+
+(** the re-evaluator fills a Python dict item by item and looks for placeholders in the *finished* dict: an unknown
+    value stored under a key that a later item stores again is gone by then *)
+Definition last_value (k : val) (kvs : list (rval * rval)) (dflt : rval) : rval :=
+  fold_left (fun acc p => match fst p with
+                          | Some k' => if p_same_key P k k' then snd p else acc
+                          | None => acc
+                          end) kvs dflt.
+
+Fixpoint settle (kvs : list (rval * rval)) : list (rval * rval) :=
+  match kvs with
+  | [] => []
+  | (Some k, None) :: r => (Some k, last_value k r None) :: settle r
+  | p :: r => p :: settle r
+  end.
+
+Definition dict_items (kvs : list (rval * rval)) : option (list (val * val)) :=
+  let c := settle kvs in
+  match all_some (map fst c), all_some (map snd c) with
+  | Some ks, Some vs => Some (combine ks vs)
+  | _, _ => None
+  end.
 
 Fixpoint rc (i : nat) (e : expr) {struct e} : R rval :=
   match e with
@@ -551,9 +578,9 @@ Fixpoint rc (i : nat) (e : expr) {struct e} : R rval :=
       end
   | EDict ds =>
       kvs <- rc_dpairs (S i) ds ;;
-      match all_some (map fst kvs), all_some (map snd kvs) with
-      | Some ks, Some vs => d <- lift (p_mkdict P (combine ks vs)) ;; record i d ;;; ret (Some d)
-      | _, _ => ph
+      match dict_items kvs with
+      | Some items => d <- lift (p_mkdict P items) ;; record i d ;;; ret (Some d)
+      | None => ph
       end
   | EComp k elt elt2 gs =>
       m <- get_env ;;
@@ -645,6 +672,14 @@ with rc_dpairs (i : nat) (ds : dpairs) {struct ds} : R (list (rval * rval)) :=
   | DNil => ret []
   | DCons k v r =>
       kx <- rc i k ;; vx <- rc (i + size k) v ;; rest <- rc_dpairs (i + size k + size v) r ;; ret ((kx, vx) :: rest)
+  | DStar e1 r =>
+      x <- rc i e1 ;;
+      match x with
+      | None => rest <- rc_dpairs (i + size e1) r ;; ret ((None, None) :: rest)
+      | Some mv =>
+          kv <- lift (p_items P mv) ;; rest <- rc_dpairs (i + size e1) r ;;
+          ret (map (fun p => (Some (fst p), Some (snd p))) kv ++ rest)
+      end
   end
 with rc_gens (i : nat) (gs : gens) {struct gs} : R unit :=
   match gs with
